@@ -148,7 +148,8 @@ def handleEvent (c : Codec) (s : St) : Event → Except AErr St
   | .auxStart ty brotli last =>
     if ty = tyJbrd then .ok { s with curTy := some ty, lastBox := last }
     else
-      match (if brotli then ensureBrotli s.cur else ensureRaw s.cur) with
+      -- the reader of a box that was never finished is dropped (`current_box = AuxBoxReader::new()`)
+      match (if brotli then ensureBrotli .init else ensureRaw .init) with
       | .error e => .error e
       | .ok r => .ok { s with curTy := some ty, cur := r, lastBox := last }
   | .auxData ty d =>
